@@ -316,6 +316,8 @@ H("sendbuf_poll_transmit_retransmit_native", ["C01"], "replay-only", "connection
   ["SendBuffer::poll_transmit"], "native replay body of E2 query e2_sendbuf_poll_transmit")
 H("endpoint_stateless_reset_native", ["C03", "C07"], "replay-only", "endpoint::stateless_reset_native",
   [("inciting_len", "u16")], 4, [], ["Endpoint::stateless_reset"], "native replay body of E2 query e2_stateless_reset")
+H("token_bloom_replay_native", ["C14"], "replay-only", "token::bloom_replay_native",
+  [("n", "u16"), ("budget", "u16")], 4, [], ["BloomTokenLog::check_and_insert", "Filter::check_and_insert"], "native replay body of E2 query e2_bloom_filter_check_and_insert (replay workspace builds quinn-proto with its `bloom` feature)")
 H("token_from_header_native", ["C14"], "replay-only", "token::from_header_native",
   [("retry", "bool"), ("same_ip", "bool"), ("same_port", "bool"), ("age", "u16"), ("lifetime", "u16"), ("log_ok", "bool"), ("corrupt", "bool")], 4, [],
   ["IncomingToken::from_header", "Token::encode", "Token::decode"], "native replay body of E2 query e2_token_from_header")
@@ -437,6 +439,8 @@ H("conn_migration_trigger_native", ["C15"], "replay-only", "connection::migratio
   [("mode", "u8")], 4, [], ["Connection::handle_event", "Connection::process_payload", "Connection::migrate"], "native replay body of E2 slice query e2_migration_trigger_slice")
 H("conn_path_validation_timeout_native", ["C15"], "replay-only", "connection::path_validation_timeout_native",
   [("rounds", "u8")], 4, [], ["Connection::handle_event", "Connection::migrate", "Connection::handle_timeout"], "native replay body of E2 slice query e2_path_validation_timeout_slice")
+H("conn_zero_rtt_rejection_native", ["C17", "C12"], "replay-only", "connection::zero_rtt_rejection_native",
+  [("accept", "bool")], 4, [], ["Connection::handle_event", "Connection::process_decrypted_packet", "StreamsState::zero_rtt_rejected", "Connection::remove_in_flight"], "native replay body of E2 slice query e2_zero_rtt_rejection_slice")
 H("conn_path_response_native", ["C15", "C07"], "replay-only", "connection::path_response_native",
   [("mode", "u8")], 4, [], ["Connection::handle_event", "Connection::process_payload"], "native replay body of E2 slice query e2_path_response_slice")
 H("conn_detect_lost_native", ["C12"], "replay-only", "connection::detect_lost_native",
